@@ -1,5 +1,6 @@
 '''C10 equals is a content equivalence; hashable variants honour the hash contract.'''
 from sfa.report import Ctx
+from sfa.rules import recache
 from sfa.rules import blockrules
 from sfa.rules import narules
 from sfa.rules import forwardrules
@@ -12,7 +13,7 @@ LEVEL_TEXT = (
     'gated by their option, (H3) nested equals calls compare like components and forward every option, '
     '(H4) the identity shortcut, (H5) __eq__/__ne__/__hash__ of SeriesHE/FrameHE. If every test and the mask '
     'are symmetric terms and the element comparison is symmetric, equals is symmetric; a violated obligation '
-    'is a concrete asymmetric construct. Sibling defaults: a parameter taken by the same-named method of several container classes has the same default in each (confirmed exceptions listed in sfa/rules/forwardrules.py). Finite case analysis over the dtype kinds: in TypeBlocks / Series / Index equals, with skipna requested and for every kind that can hold a missing value, no answer is returned after the elementwise comparison before the missing masks were consulted. Slice cardinality: every `<slice>.indices(n)` result in core is consumed whole or any stop - start span is computed with the step (single-row detection, assigned widths and fill limits count stepped slices correctly). Identity shortcut: every equals(..., skipna=...) takes its `other is self` shortcut only when skipna holds (with skipna=False a container holding NaN equals neither its copy nor itself). Not decided: transitivity, NaN/None/NaT element semantics, symmetry '
+    'is a concrete asymmetric construct. Sibling defaults: a parameter taken by the same-named method of several container classes has the same default in each (confirmed exceptions listed in sfa/rules/forwardrules.py). Finite case analysis over the dtype kinds: in TypeBlocks / Series / Index equals, with skipna requested and for every kind that can hold a missing value, no answer is returned after the elementwise comparison before the missing masks were consulted. Slice cardinality: every `<slice>.indices(n)` result in core is consumed whole or any stop - start span is computed with the step (single-row detection, assigned widths and fill limits count stepped slices correctly). Identity shortcut: every equals(..., skipna=...) takes its `other is self` shortcut only when skipna holds (with skipna=False a container holding NaN equals neither its copy nor itself). Fresh operands: every read of the lazily cached Index._labels / IndexHierarchy._blocks in equals (of self and of other) is dominated by the staleness guard, so a grown grow-only operand is compared by its current labels and dtype (B.recache). Not decided: transitivity, NaN/None/NaT element semantics, symmetry '
     'of == on user objects.')
 
 
@@ -30,3 +31,5 @@ def run(ctx: Ctx) -> None:
     narules.nullable_kinds(ctx)
     narules.identity_shortcut_skipna(ctx)
     blockrules.slice_cardinality(ctx)
+    recache.check(ctx, 'Index', floor_reads=36)
+    recache.check(ctx, 'IndexHierarchy', floor_reads=38)
